@@ -24,7 +24,7 @@ def gen_cases(ck):
     n = 30 if ck.tier == "quick" else 200
     for i in range(n):
         lim = [None, "pi", None][int(ck.rng.integers(3))] if ck.rng.random() < 0.25 else float(ck.rng.uniform(0.62, 1.0) * math.pi)
-        cases.append({"type": "tissue", "seed": int(ck.rng.integers(1 << 30)), "tissue": ["random", "jitter", "hex"][int(ck.rng.integers(3))],
+        cases.append({"type": "tissue", "seed": int(ck.rng.integers(1 << 30)), "tissue": ["random", "jitter", "hex", "quad"][int(ck.rng.integers(4))],
                       "sites": int(ck.rng.integers(14, 34)), "subset": [None, 0.7][int(ck.rng.integers(2))], "min_ridge": 0.005,
                       "mobius": bool(ck.rng.integers(4) != 0), "kmin": 1, "kmax": 8, "angle": float(ck.rng.uniform(0, 6.28)),
                       "scale": float(10.0 ** ck.rng.uniform(-1, 1)), "noise": float(ck.rng.choice([0.0, 0.02])),
@@ -210,6 +210,23 @@ def run_case(ck, case, reqs, pending):
                     ck.fail("every other position holds the solution of the restricted system",
                             f"deviation {np.max(np.abs(np.array(kept) - zref[:n]))} from an independent solve (path {rec['path']})", case)
                 ck.count("restricted_solution_checked")
+    # ---------------- the same rule through the other entry point that assembles systems (get_system_velocity_per_frame builds
+    # every frame's matrix with the limit it is given, default fit)
+    if case["rhs"] == "velocity" and fit == "dlite" and not code_near:
+        try:
+            impl.quiet(sc.forsys.get_system_velocity_per_frame)
+            fm_d = sc.forsys.force_matrices[0]
+            if [[int(q) for q in e] for e in fm_d.big_edges_to_use] != internal or fm_d.deletes:
+                ck.fail("with the default limit nothing is excluded", "after get_system_velocity_per_frame() the frame's system still excludes interfaces", case)
+            if lim is not None:
+                impl.quiet(sc.forsys.get_system_velocity_per_frame, angle_limit=lim)
+                fm_l = sc.forsys.force_matrices[0]
+                if [[int(q) for q in e] for e in fm_l.big_edges_to_use] != used or sorted(int(q) for q in fm_l.deletes) != deletes:
+                    ck.fail("an interface is excluded exactly when both of its end junctions are flagged; the rest keep their order",
+                            f"get_system_velocity_per_frame(angle_limit) assembles {len(fm_l.big_edges_to_use)} unknowns, build_force_matrix(angle_limit) {len(used)}", case)
+            ck.count("second_entry_point_checked")
+        except FloatingPointError:
+            ck.count("second_entry_point_zero_mean_speed")
     # ---------------- K
     if not code_near:
         reqs.append({"op": "fmatrix", "mesh": mesh_json(frame.vertices, frame.edges, frame.cells),
